@@ -34,8 +34,8 @@ def extract_specs(name, ctx):
             hs.append('(":message-type"@, "event"@)')
             pay = {None: "ret.payload is None", "blob": "ret.payload == self.payload", "xml": "ret.payload == (match self.details { Some(d) => Some(spec_xml_payload(d)), None => None::<Bytes> })"}[kind]
             C[f"msg_{shape}"] = [{"kind": "sig", "text":
-                f"    ensures\n        //# C03:event.{ev}.headers_name_the_event_as_the_model_does\n        ret.headers.view() =~= seq![{', '.join(hs)}],\n"
-                f"        //# C03:event.{ev}.payload_is_the_events_payload_member\n        {pay},\n        //#-\n"}]
+                f"    ensures\n        //# C03,C15:event.{ev}.headers_name_the_event_as_the_model_does\n        ret.headers.view() =~= seq![{', '.join(hs)}],\n"
+                f"        //# C03,C15:event.{ev}.payload_is_the_events_payload_member\n        {pay},\n        //#-\n"}]
             if kind == "xml":
                 C[f"msg_{shape}"].append({"kind": "closure", "n": 1, "anchor": "{ xml_payload(__e) }", "optional": True, "text": "    ensures cret == __e.doc()\n"})
         return specs, C
